@@ -357,6 +357,98 @@ def trie_shard(cname, hpi, dt, refrac_t, lock, adapt, T):
     return tally
 
 
+def worlds_shard(cname, hpi, dt, refrac_t, lock, T):
+    """differential worlds over the whole input trie, adaptation on: (J) two neurons in one module in training mode, (S0, S1) each
+    of them alone in its own module, (K) the pair in evaluation mode stepped with adapt=True, (F) the pair in training mode stepped
+    with adapt=False. J, S and K must agree on voltage, refractory time, adaptation and spikes at every step (a neuron's step does
+    not depend on what its neighbours do, and the adapt argument overrides the mode); F's adaptation must never move."""
+    tally = Tally()
+    hp = HP[cname][hpi]
+    ref = Ref(cname, hp, dt, refrac_t)
+    letters, _ = alphabet(ref, hp)
+    cfg = {"class": cname, "hp": hpi, "dt": dt, "refrac_t": refrac_t, "refrac_lock": lock, "worlds": True}
+    adaptive = cname in ADAPT_THRESH + ADAPT_CURR
+
+    def mk(shape, train):
+        n = CLS[cname](shape, dt, refrac_t=refrac_t, batch_size=1, **hp)
+        n.train(train)
+        return n
+
+    J, S0, S1 = mk((2,), True), mk((1,), True), mk((1,), True)
+    K, F = (mk((2,), False), mk((2,), True)) if adaptive else (None, None)
+    worlds = [w for w in (J, S0, S1, K, F) if w is not None]
+
+    def snap(n):
+        a = get_adapt(n, cname)
+        return (n.voltage.clone(), n.refrac.clone(), None if a is None else a.clone())
+
+    def restore(n, s):
+        n.voltage = s[0].clone()
+        n.refrac = s[1].clone()
+        if s[2] is not None:
+            set_adapt(n, cname, s[2].clone())
+
+    def flat(n):
+        a = get_adapt(n, cname)
+        return (n.voltage.reshape(-1).tolist(), n.refrac.reshape(-1).tolist(), None if a is None else a.reshape(n.voltage.numel(), -1).tolist())
+
+    f_adapt0 = None if F is None else get_adapt(F, cname).clone()
+
+    def rec(depth, hist, inputs_hist):
+        if depth == T:
+            return
+        snaps = [snap(w) for w in worlds]
+        jv, jr, ja = flat(J)
+        for li in range(len(letters)):
+            for w, sn in zip(worlds, snaps):
+                restore(w, sn)
+            lets = (letters[li], letters[(li + 2) % len(letters)])
+            xs = []
+            for e in range(2):
+                a_sum = sum(ja[e]) if (ja is not None and cname in ADAPT_CURR) else 0.0
+                theta = ref.thresh + (sum(ja[e]) if (ja is not None and cname in ADAPT_THRESH) else 0.0)
+                xs.append(float(torch.tensor(letter_value(lets[e], ref, jv[e], a_sum, theta), dtype=torch.float32)))
+            case = {**cfg, "letters": hist + [lets[0]], "inputs": inputs_hist + [xs]}
+            try:
+                oj = J(torch.tensor([xs]), refrac_lock=lock)
+                o0 = S0(torch.tensor([xs[:1]]), refrac_lock=lock)
+                o1 = S1(torch.tensor([xs[1:]]), refrac_lock=lock)
+                ok = K(torch.tensor([xs]), adapt=True, refrac_lock=lock) if K is not None else None
+                of = F(torch.tensor([xs]), adapt=False, refrac_lock=lock) if F is not None else None
+            except Exception as ex:
+                tally.violation(f"exception:worlds:{cname}:{type(ex).__name__}", case, repr(ex))
+                continue
+            tally.add("steps", len(worlds))
+            fj, f0, f1 = flat(J), flat(S0), flat(S1)
+            solo = ([f0[0][0], f1[0][0]], [f0[1][0], f1[1][0]], None if fj[2] is None else [f0[2][0], f1[2][0]])
+            so = [bool(o0.reshape(-1)[0]), bool(o1.reshape(-1)[0])]
+            bad = False
+            if oj.reshape(-1).tolist() != so or fj != solo:
+                bad = True
+                tally.violation(f"neighbour-dependent-step:{cname}", case, f"two neurons stepped in one module: spikes {oj.reshape(-1).tolist()}, "
+                                f"(voltage, refrac, adaptation) {fj}; each stepped alone with the same inputs from the same state: {so}, {solo}", solo, fj)
+            if K is not None:
+                fk = flat(K)
+                if ok.reshape(-1).tolist() != oj.reshape(-1).tolist() or fk != fj:
+                    bad = True
+                    tally.violation(f"adapt-kwarg-true-in-eval:{cname}", case, f"evaluation mode with adapt=True gives {fk}, training mode with "
+                                    f"the default gives {fj} (the adapt argument is documented to override the mode)", fj, fk)
+                if not torch.equal(get_adapt(F, cname), f_adapt0):
+                    bad = True
+                    tally.violation(f"adapt-kwarg-false-in-train:{cname}", case, f"training mode with adapt=False: adaptation moved to "
+                                    f"{get_adapt(F, cname).tolist()}", f_adapt0.tolist(), get_adapt(F, cname).tolist())
+            if any(so):
+                tally.mark("nontrivial", ("worlds", cname, hpi, dt, refrac_t, lock, tuple(hist + [lets[0]])))
+            if not bad:
+                rec(depth + 1, hist + [lets[0]], inputs_hist + [xs])
+        for w, sn in zip(worlds, snaps):
+            restore(w, sn)
+
+    rec(0, [], [])
+    tally.add("histories", len(letters) ** T)
+    return tally
+
+
 def comparator_shard():
     """>= at threshold on exactly representable states built through the public setters"""
     tally = Tally()
@@ -408,6 +500,8 @@ def run(rep):
                             if hpi == 2 and (k not in (2.0, 3.0) or (quick and dt != 1.0)):
                                 continue
                             jobs.append((trie_shard, (cname, hpi, dt, k * dt, lock, adapt, T)))
+                            if adapt and hpi == 0 and dt == 1.0 and k in (0.0, 1.5, 3.0) and (lock or k == 3.0):
+                                jobs.append((worlds_shard, (cname, hpi, dt, k * dt, lock, T)))
                             if lock and adapt and hpi == 0 and k == 3.0 and dt == 1.0:
                                 # the lock toggled from step to step inside one refractory period
                                 jobs.append((trie_shard, (cname, hpi, dt, k * dt, "alt", adapt, T)))
